@@ -122,6 +122,9 @@ func Discharge(obls []*Obligation, tier Tier) {
 				if k < len(r.ans) {
 					a = r.ans[k]
 				}
+				if a == "sat" {
+					a = "unknown" // quantified facts were dropped: only unsat is conclusive
+				}
 				if a == "unsat" || a == "sat" {
 					if j.status == "" || j.status == "unknown" {
 						j.status, j.solver = a, r.solver
@@ -252,9 +255,22 @@ func Discharge(obls []*Obligation, tier Tier) {
 
 // incrementalScript renders the jobs of one chunk as a push/pop walk.
 func incrementalScript(jobs []*vcJob) string {
+	// phase 1 works on the quantifier-free part of each path condition: a
+	// goal that is unsat without the quantified facts is unsat with them; any
+	// other answer is re-examined in phase 2 with the complete VC.
+	qf := func(as []*Term) []*Term {
+		var out []*Term
+		for i, a := range as {
+			if i < len(as)-1 && (a.Op == "forall" || a.Op == "exists") {
+				continue
+			}
+			out = append(out, a)
+		}
+		return out
+	}
 	var all []*Term
 	for _, j := range jobs {
-		all = append(all, j.vc.Asserts...)
+		all = append(all, qf(j.vc.Asserts)...)
 	}
 	facts := typeCodeFactsFor(all)
 	hdr, names := scriptHeader(Prelude(), append(append([]*Term(nil), facts...), all...))
@@ -267,7 +283,7 @@ func incrementalScript(jobs []*vcJob) string {
 	}
 	var cur []*Term
 	for k, j := range jobs {
-		as := j.vc.Asserts
+		as := qf(j.vc.Asserts)
 		c := 0
 		for c < len(cur) && c < len(as) && cur[c] == as[c] {
 			c++
